@@ -52,16 +52,33 @@ def _lax(name, op, pick):
     cases = {k: {"value": v["value"], name: v["bound"]} for k, v in ORDER_CASES.items()
              if k not in ("Decimal,Decimal", "Decimal,int")}
     cases["Decimal,Decimal"] = {"value": DEC, name: DEC}
+    cases["Decimal,int"] = {"value": DEC, name: INT}
 
-    @contract(F, "Constraints.lax_" + name, props=["C03"])
+    @contract(F, "Constraints.lax_" + name, props=["C03", "C01"])
     class _:
-        __doc__ = "lax %s: clamp to the bound" % name
+        __doc__ = ("lax %s: clamp to the bound.  C01: the clamped result is still a value of the input's own type (a float type "
+                   "declared with %s=Lax(0) yields 0.0, a Decimal type Decimal('0')), equal in value to the bound." % (name, name))
         self_model = "class:Constraints"
         locals()["cases"] = cases
-        returns = {"clamped": "(result is %s) if (value %s %s) else (result is value)" % (name, pick, name)}
+        returns = {"clamped": "(result == %s) if (value %s %s) else (result is value)" % (name, pick, name)}
+        # C01: which (declared type, bound) pairs keep the declared type.  A float type with an int bound beyond 2**53 that
+        # binary64 cannot represent, and a bool type with a numeric bound, are not claimed; an int type with a float bound
+        # is claimed and fails for a non-integral bound (known finding).
+        returns_by_case = {k: {"keeps_the_declared_type": "same_class(result, value)"}
+                           for k in ("int,int", "float,float", "Decimal,Decimal", "Decimal,int", "str,str", "int,float")}
+        returns_by_case["float,int"] = {"keeps_the_declared_type": "implies(-9007199254740992 <= %s and %s <= 9007199254740992, same_class(result, value))" % (name, name)}
+        result_by_case = {k: "like:value" for k in ("int,int", "float,float", "Decimal,Decimal", "str,str", "Decimal,int")}
         only_raises = []
-        result = "like:value"
+        tags = {"clamped": ["C03", "C01"], "keeps_the_declared_type": ["C01"]}
     return _
+
+
+def _install_lax(world):
+    world.inline.add((F, "Constraints._bound_as"))
+
+
+from pyvc import contract as _C0
+_C0.INSTALLERS.append(_install_lax)
 
 
 LAX_GE = _lax("ge", ">=", "<")
@@ -147,13 +164,40 @@ class CONST:
     assumes = ["== and != on the operands do not raise and are complementary"]
 
 
-@contract(F, "Constraints.lax_const", props=["C03"])
+@contract(F, "Constraints.lax_const", props=["C03", "C01"])
 class LAX_CONST:
-    result = "like:v"
+    """documented: the constant is output in place of the value -- as a value of the input's own type when the declared
+    constant is a number of another (tolerated) type that the input's type can represent"""
     self_model = "class:Constraints"
-    cases = {"obj,obj": dict(value=OBJ, v=OBJ)}
-    returns = {"const": "result is v"}
+    cases = {"obj,obj": dict(value=Obj(name="plain"), v=OBJ), "float,int": dict(value=FLOAT, v=INT), "int,int": dict(value=INT, v=INT),
+             "float,float": dict(value=FLOAT, v=FLOAT), "str,str": dict(value=STR, v=STR), "Decimal,int": dict(value=DEC, v=INT)}
+    returns_by_case = {
+        "obj,obj": {"const": "result is v"},
+        "int,int": {"const": "result is v", "keeps_the_declared_type": "same_class(result, value)"},
+        "float,float": {"const": "result is v", "keeps_the_declared_type": "same_class(result, value)"},
+        "str,str": {"const": "result is v", "keeps_the_declared_type": "same_class(result, value)"},
+        "float,int": {"const": "result == v",
+                      "keeps_the_declared_type": "implies(-9007199254740992 <= v and v <= 9007199254740992, same_class(result, value))"},
+        "Decimal,int": {"const": "result == v", "keeps_the_declared_type": "same_class(result, value)"},
+    }
+    result_by_case = {"int,int": "like:value", "float,float": "like:value", "str,str": "like:value", "Decimal,int": "like:value"}
     only_raises = []
+    tags = {"keeps_the_declared_type": ["C01"]}
+
+    @staticmethod
+    def setup(ex, frame):
+        if ex.case_name == "obj,obj":
+            import z3
+            from pyvc import sym
+            import decimal as _d
+            v = frame.env["value"]
+            for py in (int, float, _d.Decimal):
+                ex.assume(z3.Not(sym.sub(sym.ty(v.t), ex.world.classes.of_py(py).t)))
+            if ex.case_name.startswith("member"):
+                # the member's own value is not a number either (numeric values: the int / float cases)
+                mv = z3.Function("attr_value", sym.V, sym.V)(v.t)
+                for py in (int, float, _d.Decimal):
+                    ex.assume(z3.Not(sym.sub(sym.ty(mv), ex.world.classes.of_py(py).t)))
 
 
 _ENUM_U = "(value.value if isinst(value, Enum) else value)"
@@ -183,17 +227,41 @@ class ENUM:
             ex.assume(sym.hasattr_f(sym.ty(v.t), z3.StringVal("value")))
 
 
-@contract(F, "Constraints.lax_enum", props=["C03"])
+@contract(F, "Constraints.lax_enum", props=["C03", "C01"])
 class LAX_ENUM:
     self_model = "class:Constraints"
     cases = {"plain,list": dict(value=Obj(name="plain"), lst=Seq("list", nonempty=True)),
              "member,list": dict(value=Obj(isa=enum.Enum), lst=Seq("list", nonempty=True)),
-             "int,list": dict(value=INT, lst=Seq("list", nonempty=True))}
-    returns = {"fallback_first": "(result is %s) if (%s in lst) else (result is lst[0])" % (_ENUM_U, _ENUM_U),
-               "strict_form_holds": "result in lst"}
+             "int,list-of-int": dict(value=INT, lst=Seq("list", nonempty=True, elem=INT)),
+             "float,list-of-int": dict(value=FLOAT, lst=Seq("list", nonempty=True, elem=INT))}
+    returns_by_case = {
+        "plain,list": {"fallback_first": "(result is %s) if (%s in lst) else (result is lst[0])" % (_ENUM_U, _ENUM_U), "strict_form_holds": "result in lst"},
+        "member,list": {"fallback_first": "(result is %s) if (%s in lst) else (result is lst[0])" % (_ENUM_U, _ENUM_U), "strict_form_holds": "result in lst"},
+        "int,list-of-int": {"fallback_first": "(result is value) if (value in lst) else (result is lst[0])", "strict_form_holds": "result in lst",
+                            "keeps_the_declared_type": "same_class(result, value)"},
+        "float,list-of-int": {"fallback_first": "(result is value) if (value in lst) else (result == lst[0])", "strict_form_holds": "result in lst",
+                              "keeps_the_declared_type": "implies(-9007199254740992 <= lst[0] and lst[0] <= 9007199254740992, same_class(result, value))"},
+    }
     only_raises = []
-    setup = ENUM.setup
-    assumes = ["lst is non-empty (an empty enum makes the lax form raise IndexError)"]
+    tags = {"keeps_the_declared_type": ["C01"]}
+
+    @staticmethod
+    def setup(ex, frame):
+        ENUM.setup(ex, frame)
+        if ex.case_name.startswith(("plain", "member")):
+            import z3
+            from pyvc import sym
+            import decimal as _d
+            v = frame.env["value"]
+            for py in (int, float, _d.Decimal):
+                ex.assume(z3.Not(sym.sub(sym.ty(v.t), ex.world.classes.of_py(py).t)))
+            if ex.case_name.startswith("member"):
+                # the member's own value is not a number either (numeric values: the int / float cases)
+                mv = z3.Function("attr_value", sym.V, sym.V)(v.t)
+                for py in (int, float, _d.Decimal):
+                    ex.assume(z3.Not(sym.sub(sym.ty(mv), ex.world.classes.of_py(py).t)))
+    assumes = ["lst is non-empty (an empty enum makes the lax form raise IndexError)",
+               "cases plain / member: the value (and an Enum member's own value) is not a number; numbers: the typed cases"]
 
 
 @contract(F, "Constraints.regex", props=["C02", "C01"])
@@ -347,3 +415,101 @@ class LAX_UNIQUE_ITEMS:
     returns_by_case["list,False"] = {"unchanged": "result is value"}
     only_raises = []
     frame = ["value"]
+
+
+# ------------------------------------------------------------------------------------ which declarations are legal (C02)
+
+import z3
+from pyvc import sym, Unsupported
+from pyvc.models import RecordModel as _RecordModel
+from pyvc.sym import V, VObj, VBool, VDict as _VDict, VFunc as _VFunc, VNone as _VNone, VRec as _VRec
+from pyvc.contract import specfn, Const, Rec, NONE
+from pyvc import contract as _C2
+
+_dropped_as_redundant = {}
+
+
+class _ConstraintsObjModel(_RecordModel):
+    """a Constraints instance as validate_constraints sees it: origin_type, and the three consistency checks
+    valid_types / valid_bounds / valid_length as TRUSTED interfaces: each returns or raises ConfigError, and may remove
+    an entry of the dict it is given only when that entry is redundant (min_length=0, max_length next to an equal
+    length, ...): the removal is recorded in a ghost set so the caller's contract can tell it from a silent drop."""
+
+    def getattr(self, ex, rec, name, node):
+        if name in ("valid_types", "valid_bounds", "valid_length"):
+            def check(ex_, a, k):
+                d = a[0]
+                if not isinstance(d, _VDict):
+                    raise Unsupported("%s on a non-enumerated dict" % name)
+                ex_.world.ext.use(ex_, "Constraints.%s(bounds): returns or raises ConfigError; removes only redundant entries (ghost-recorded)" % name)
+                if ex_.branch(z3.Bool("%s_raises!%d" % (name, next(ex_.counter)))):
+                    ex_.throw("utype.utils.exceptions.ConfigError", node, origin=name)
+                gone = getattr(ex_, "redundant_keys", None)
+                if gone is None:
+                    gone = ex_.redundant_keys = {}
+                for kk, (p, v) in list(d.items.items()):
+                    keep = z3.Bool("%s_keeps_%s!%d" % (name, kk, next(ex_.counter)))
+                    d.items[kk] = (z3.And(p, keep), v)
+                    gone[kk] = z3.Or(gone.get(kk, z3.BoolVal(False)), z3.And(p, z3.Not(keep)))
+                return _VNone()
+            return _VFunc(name, check)
+        return _RecordModel.getattr(self, ex, rec, name, node)
+
+
+def _install_constraints_obj(world):
+    world.models["ConstraintsObj"] = _ConstraintsObjModel(world, F, "Constraints", dict(origin_type=NONE))
+
+
+_C2.INSTALLERS.append(_install_constraints_obj)
+
+_DECL_KEYS = ("const", "enum", "gt", "min_length")
+
+
+def _declared(present):
+    def mk(ex):
+        d = _VDict()
+        for k in present:
+            v = VObj(z3.Const("declared_%s" % k, V))
+            ex.assume(v.t != sym.NONE)
+            d.items[k] = (z3.BoolVal(True), v)
+        d.origin = "param:constraints"
+        return d
+    return Const(mk, name="{%s}" % ",".join(present))
+
+
+def _vc_cases():
+    out = {}
+    for mask in range(1, 2 ** len(_DECL_KEYS)):
+        present = [k for i, k in enumerate(_DECL_KEYS) if mask >> i & 1]
+        out["+".join(present)] = dict(self=Rec("ConstraintsObj", origin_type=NONE), constraints=_declared(present))
+    return out
+
+
+@specfn("kept_or_redundant")
+def _kept_or_redundant(ex, fr, result, key):
+    """the declared constraint `key` is among the validators that will be generated, or one of the consistency checks
+    removed it as redundant"""
+    k = key.const()
+    e = result.items.get(k) if isinstance(result, _VDict) else None
+    kept = e[0] if e is not None else z3.BoolVal(False)
+    gone = getattr(ex, "redundant_keys", {}).get(k, z3.BoolVal(False))
+    return VBool(z3.Or(kept, gone))
+
+
+@contract(F, "Constraints.validate_constraints", props=["C02"])
+class VALIDATE_CONSTRAINTS:
+    """C02 `succeeds exactly when EVERY declared constraint holds`: the constraints that reach generate_validators are
+    all the declared ones (a consistency check may drop a redundant one); none is dropped silently.  BOUNDED to
+    declarations over the keys const, enum, gt, min_length (every combination, symbolic values), no origin type."""
+    cases = _vc_cases()
+    concrete_dicts = True
+    returns_by_case = {cn: {"declared_%s_is_enforced" % k: "kept_or_redundant(result, '%s')" % k for k in cn.split("+")}
+                       for cn in _vc_cases()}
+    only_raises = ["ConfigError"]
+    modifies = ["self"]          # an Enum class fixes the origin type
+    assumes = ["BOUNDED: declarations over the keys const / enum / gt / min_length, values not None, no origin type",
+               "valid_types / valid_bounds / valid_length: trusted interfaces (see _ConstraintsObjModel)"]
+
+    @staticmethod
+    def setup(ex, frame):
+        ex.redundant_keys = {}
